@@ -17,6 +17,7 @@ pub mod c11;
 pub mod c12;
 pub mod c14;
 pub mod c16;
+pub mod c17;
 pub mod c19;
 pub mod c20;
 pub mod pad;
@@ -97,6 +98,11 @@ pub fn dispatch(prop: &str, ctx: Ctx, replay: Option<&str>) -> i32 {
             crate::run::start_watchdog(std::time::Duration::from_secs(900), None);
             let rep = c16::run(ctx);
             finish(rep, c16::meta(), ctx.tier, ctx.seed, started)
+        }
+        "C17" => {
+            crate::run::start_watchdog(std::time::Duration::from_secs(900), None);
+            let rep = c17::run(ctx);
+            finish(rep, c17::meta(), ctx.tier, ctx.seed, started)
         }
         "C03" => {
             let mut rep = Report::new("C03");
